@@ -165,6 +165,9 @@ theorem reentry_fails_iff {L : Nat} {s : St} (h : Reach L s) (k : Kind) :
   rw [← hl]
   exact ⟨enter_error_iff s k (depth_pos_of_chain hc), enter_ok_or_error s k⟩
 
+example : step ⟨10, ⟨0, 10⟩, []⟩ (.enter .blockCall) = .recursionError ∧
+    step ⟨10, ⟨0, 9⟩, []⟩ (.enter .blockCall) ≠ .recursionError := by decide
+
 /-- the error ends the run at the first failing attempt, whatever follows -/
 theorem error_is_final (s : St) (pre post : List Ev) (e : Ev) {s1 : St}
     (h1 : run s pre = .ok s1) (h2 : step s1 e = .recursionError) :
@@ -268,6 +271,110 @@ theorem limit_clamped (level : Nat) :
     omega
 
 example : setRecursionLimit 100000 = 500 ∧ setRecursionLimit 7 = 7 := by decide
+
+/-! ## The native stack, with the bytes per re-entry as measured parameters
+
+The model cannot exhibit how many bytes of native stack one re-entry consumes.  Taking them as
+parameters (`bytes : Kind → Nat`, plus `root` bytes before the first activation) the property's
+second sentence becomes a statement about the accounting: -/
+
+/-- "never overflows a 2 MiB stack for any recursion limit up to the default" for given
+    per-kind frame sizes -/
+def C11_stack_full (bytes : Kind → Nat) (root : Nat) : Prop :=
+  ∀ L, L ≤ maxRecursionEnv → ∀ s, Reach L s → root + stackBytes bytes s.acts ≤ 2097152
+
+/-- frame sizes measured on the pinned tree in an unoptimised debug build (opt-level 0,
+    x86-64 Linux, rustc 1.95, hooks on): bytes per native re-entry of each kind, and 15300 bytes
+    before the first activation.  A snapshot — every run re-measures, reports the current numbers
+    and compares them with this table: upper bounds for macro/caller/include (used by the partial
+    theorem's instance), lower bounds for block/super (used by the counterexample). -/
+def measuredDebugO0 : Kind → Nat
+  | .macroCall => 16500
+  | .callerCall => 16500
+  | .includeTpl => 15000
+  | .blockCall => 13600
+  | .superCall => 13600
+
+/-- the same in the release profile, upper bounds (block calls through `State::render_block`
+    are the largest, up to 4095 bytes); 5100 bytes before the first activation -/
+def measuredRelease : Kind → Nat
+  | .macroCall => 4700
+  | .callerCall => 4700
+  | .includeTpl => 3300
+  | .blockCall => 4096
+  | .superCall => 3700
+
+theorem stack_le_weighted (P : Kind → Prop) (bytes : Kind → Nat) (ρ : Nat)
+    (h : ∀ k, P k → bytes k ≤ ρ * cost k) :
+    ∀ acts : List Act, (∀ a ∈ acts, P a.kind) → stackBytes bytes acts ≤ ρ * wsum acts := by
+  intro acts
+  induction acts with
+  | nil => intro _; simp [stackBytes]
+  | cons a rest ih =>
+    intro hP
+    have h1 := h a.kind (hP a (by simp))
+    have h2 := ih (fun x hx => hP x (by simp [hx]))
+    simp only [stackBytes, wsum, Nat.mul_add]
+    omega
+
+/-- blocks can be nested up to the limit, one depth unit each -/
+theorem reach_blocks (bytes : Kind → Nat) (L : Nat) :
+    ∀ n, n + 1 ≤ L → ∃ s, Reach L s ∧ s.limit = L ∧ s.cur = ⟨0, n + 1⟩ ∧
+      stackBytes bytes s.acts = n * bytes .blockCall := by
+  intro n
+  induction n with
+  | zero => intro _; exact ⟨init L, Reach.init, rfl, rfl, by simp [MJ.Depth.init, stackBytes]⟩
+  | succ n ih =>
+    intro hn
+    obtain ⟨s, hr, hl, hc, hb⟩ := ih (by omega)
+    have hsome : (s.cur.pushFrame s.limit).isSome :=
+      (pushFrame_isSome_iff _ _).2 (by rw [hc, hl]; simp only [Ctx.depth]; omega)
+    obtain ⟨c, hp⟩ := Option.isSome_iff_exists.1 hsome
+    obtain ⟨hceq, _⟩ := pushFrame_some hp
+    refine ⟨{ s with cur := c, acts := ⟨.blockCall, s.cur, s.cur.frames + 1⟩ :: s.acts },
+      Reach.step hr (e := .enter .blockCall) ?_, hl, ?_, ?_⟩
+    · simp only [MJ.Depth.step, enter, hp]
+    · simp only [hceq, hc]
+    · simp only [stackBytes, hb, Nat.succ_mul]; omega
+
+/-- **the full statement is false on the current code** for the measured debug frame sizes:
+    `{% block a %}{{ self.a() }}{% endblock %}` at the default limit nests 499 block calls of one
+    depth unit each — at least 6.8 MB of native stack (the harness replays this witness on every run: the
+    child dies with SIGABRT on a 2 MiB thread; KNOWN_FINDINGS.jsonl) -/
+theorem C11_counterexample : ¬ C11_stack_full measuredDebugO0 15300 := by
+  intro h
+  obtain ⟨s, hr, _, _, hb⟩ := reach_blocks measuredDebugO0 500 499 (by omega)
+  have := h 500 (by decide) s hr
+  rw [hb] at this
+  simp only [measuredDebugO0] at this
+  omega
+
+/-- **partial theorem**, the excluded region as explicit decidable hypotheses: for the re-entry
+    kinds `P` whose measured bytes per depth unit are at most `ρ`, with `root + ρ × MAX_RECURSION`
+    within 2 MiB, no mixture of such re-entries at any limit up to the default exceeds 2 MiB -/
+theorem C11_partial (P : Kind → Prop) (bytes : Kind → Nat) (root ρ : Nat)
+    (hρ : ∀ k, P k → bytes k ≤ ρ * cost k) (hfit : root + ρ * maxRecursionEnv ≤ 2097152) :
+    ∀ L, L ≤ maxRecursionEnv → ∀ s, Reach L s → (∀ a ∈ s.acts, P a.kind) →
+      root + stackBytes bytes s.acts ≤ 2097152 := by
+  intro L hL s hs hP
+  have h1 := stack_le_weighted P bytes ρ hρ s.acts hP
+  have h2 := (weighted_nesting hs).2.1
+  have h3 : ρ * wsum s.acts ≤ ρ * maxRecursionEnv := Nat.mul_le_mul_left ρ (by omega)
+  omega
+
+/-- release profile: every kind fits (ρ = 4096 bytes per depth unit; 44 KB to spare) -/
+example : C11_stack_full measuredRelease 5100 := fun L hL s hs =>
+  C11_partial (fun _ => True) measuredRelease 5100 4096 (by intro k _; cases k <;> decide)
+    (by decide) L hL s hs (fun _ _ => trivial)
+
+/-- unoptimised debug profile: everything except block calls and `super()` fits
+    (ρ = 2750 bytes per depth unit) -/
+example : ∀ L, L ≤ maxRecursionEnv → ∀ s, Reach L s →
+    (∀ a ∈ s.acts, a.kind ≠ .blockCall ∧ a.kind ≠ .superCall) →
+    15300 + stackBytes measuredDebugO0 s.acts ≤ 2097152 :=
+  C11_partial (fun k => k ≠ .blockCall ∧ k ≠ .superCall) measuredDebugO0 15300 2750
+    (by intro k hk; cases k <;> first | decide | exact absurd rfl hk.1 | exact absurd rfl hk.2)
+    (by decide)
 
 /-- the tie to the source text of the re-entry sites: the functions of `vm/mod.rs` that call
     `eval_state`/`do_eval`/`eval_impl`, with the depth-increasing calls that precede the nested
